@@ -17,6 +17,8 @@ use oxmpl::base::validity::StateValidityChecker;
 use oxmpl::geometric::{RRTConnect, RRTStar, PRM, RRT};
 use rand::Rng;
 
+mod spaces;
+
 static PANICS: std::sync::atomic::AtomicUsize = std::sync::atomic::AtomicUsize::new(0);
 type S = RealVectorState;
 type SP = RealVectorStateSpace;
@@ -479,6 +481,11 @@ fn main() {
             fam_paths(&mut o, &p, seed, deadline);
             let n = PANICS.load(std::sync::atomic::Ordering::SeqCst);
             if n > 0 && (prop == "C08" || prop == "C15" || prop == "C02") { o.report("panic", seed, format!("{} planner call(s) on well-formed inputs panicked", n)); }
+        }
+        "C09" | "C10" | "C11" | "C12" | "C13" => {
+            let mut r = spaces::Rep { n: 0 };
+            match prop.as_str() { "C09" => spaces::fam_metric(&mut r, seed), "C10" => spaces::fam_interp(&mut r, seed), "C11" => spaces::fam_bounds(&mut r, seed), "C12" => spaces::fam_ctor(&mut r, seed), _ => spaces::fam_compound(&mut r, seed) }
+            o.n += r.n;
         }
         "defects" => fam_defects(&mut o),
         "so2_bound_self" => {
